@@ -767,12 +767,15 @@ func (c *Ctx) panicSites(fd *ast.FuncDecl) []panicSite {
 						}
 					}
 				}
-				if !c.indexGuarded(fd, x) {
+				if !c.indexGuarded(fd, x) && !c.lastOfNonEmpty(fd, x.X, x.Index) {
 					out = append(out, panicSite{fn, "index", exprString(x), x.Pos()})
 				}
 			}
 		case *ast.SliceExpr:
 			if x.Low == nil && x.High == nil {
+				return true
+			}
+			if x.Low == nil && x.Max == nil && c.lastOfNonEmpty(fd, x.X, x.High) {
 				return true
 			}
 			if !c.sliceGuarded(fd, x) {
@@ -1450,4 +1453,78 @@ func (c *Ctx) fieldAssignedIn(fd *ast.FuncDecl, f *types.Var) bool {
 		return true
 	})
 	return found
+}
+
+// lastOfNonEmpty: idx is len(x)-1 (directly, or a local defined once as that) and x is the receiver or a
+// parameter of an unexported function every call site of which passes a composite literal with at least one
+// element: x[len(x)-1] and x[:len(x)-1] cannot fail.
+func (c *Ctx) lastOfNonEmpty(fd *ast.FuncDecl, x, idx ast.Expr) bool {
+	xid, ok := unparen(x).(*ast.Ident)
+	if !ok || idx == nil {
+		return false
+	}
+	xo := c.objOf(xid)
+	isLenMinus1 := func(e ast.Expr) bool {
+		be, ok := unparen(e).(*ast.BinaryExpr)
+		if !ok || be.Op != token.SUB {
+			return false
+		}
+		call, ok := unparen(be.X).(*ast.CallExpr)
+		if !ok || !c.isBuiltin(call, "len") || len(call.Args) != 1 {
+			return false
+		}
+		aid, ok := unparen(call.Args[0]).(*ast.Ident)
+		if !ok || c.objOf(aid) != xo {
+			return false
+		}
+		tv, ok := c.Info.Types[be.Y]
+		return ok && tv.Value != nil && tv.Value.String() == "1"
+	}
+	e := unparen(idx)
+	if id, ok := e.(*ast.Ident); ok {
+		ds := c.localDefs(fd)[c.objOf(id)]
+		if len(ds) != 1 || ds[0] == nil {
+			return false
+		}
+		e = unparen(ds[0])
+	}
+	if !isLenMinus1(e) {
+		return false
+	}
+	self, _ := c.Info.Defs[fd.Name].(*types.Func)
+	if self == nil || self.Exported() {
+		return false
+	}
+	isRecv := c.recvObj(fd) == xo
+	pi := c.paramIndex(fd, xo)
+	if !isRecv && pi < 0 {
+		return false
+	}
+	sites, good := 0, true
+	for _, g := range c.allFuncDecls() {
+		if g.Body == nil {
+			continue
+		}
+		ast.Inspect(g.Body, func(n ast.Node) bool {
+			call, ok := n.(*ast.CallExpr)
+			if !ok || c.callee(call) != self {
+				return true
+			}
+			sites++
+			var arg ast.Expr
+			if isRecv {
+				if se, ok := unparen(call.Fun).(*ast.SelectorExpr); ok {
+					arg = se.X
+				}
+			} else if pi < len(call.Args) {
+				arg = call.Args[pi]
+			}
+			lit, isLit := unparen(arg).(*ast.CompositeLit)
+			if arg == nil || !isLit || len(lit.Elts) == 0 {
+				good = false
+			}
+			return true
+		})
+	}
+	return good && sites > 0
 }
